@@ -11,7 +11,9 @@ CONSTANTS N,          \* chunks delta has to write
           Cap,        \* pipe capacity in chunks
           Quit,       \* the pager stops reading after Quit chunks (N + 1: it reads everything)
           Stay,       \* BOOLEAN: having stopped reading it closes its input but stays alive for a while
-          WaitsForPager   \* TRUE: the code as it is; FALSE: the regression (exit as soon as a write fails)
+          WaitsForPager,  \* TRUE: the code as it is; FALSE: the regression (exit as soon as a write fails)
+          RetriesShort    \* TRUE: the code as it is (write_all: the rest of a chunk that write(2) took only part of -
+                          \* reader behind, a signal arrives - is written again); FALSE: the regression (the rest is dropped)
 
 VARIABLES pipe,       \* chunks in the pipe
           sent,       \* chunks written so far
@@ -21,42 +23,52 @@ VARIABLES pipe,       \* chunks in the pipe
           pager,      \* "running" | "staying" (input closed, still alive) | "exited"
           delta,      \* "writing" | "waiting" (pipe closed, waiting for the pager) | "exited"
           epipe,      \* delta has seen a write fail
-          log         \* the events an observer can record, in order
-vars == <<pipe, sent, wopen, ropen, read, pager, delta, epipe, log>>
+          log,        \* the events an observer can record, in order
+          partial,    \* write(2) has taken only a part of chunk sent + 1 (the part sits in the pipe, not yet a whole chunk)
+          lost        \* chunks of which the reader can only ever get a part
+vars == <<pipe, sent, wopen, ropen, read, pager, delta, epipe, log, partial, lost>>
 
 Init == pipe = 0 /\ sent = 0 /\ wopen = TRUE /\ ropen = TRUE /\ read = 0 /\ pager = "running" /\ delta = "writing" /\ epipe = FALSE /\ log = <<"start">>
+        /\ partial = FALSE /\ lost = 0
 
-Write == /\ delta = "writing" /\ sent < N /\ ropen /\ pipe < Cap
-         /\ sent' = sent + 1 /\ pipe' = pipe + 1 /\ UNCHANGED <<wopen, ropen, read, pager, delta, epipe, log>>
+Write == /\ delta = "writing" /\ sent < N /\ ropen /\ pipe < Cap                  \* a whole chunk, or the rest of one
+         /\ sent' = sent + 1 /\ pipe' = pipe + 1 /\ partial' = FALSE /\ UNCHANGED <<wopen, ropen, read, pager, delta, epipe, log, lost>>
+(* write(2) returns having taken fewer bytes than it was given (the pipe is nearly full and a signal - ctrl-c typed in *)
+(* the pager goes to the whole foreground process group - interrupts the wait for room).  At most once per chunk here.  *)
+ShortWrite == /\ delta = "writing" /\ sent < N /\ ropen /\ pipe < Cap /\ ~partial
+              /\ partial' = TRUE /\ UNCHANGED <<pipe, sent, wopen, ropen, read, pager, delta, epipe, log, lost>>
+DropRest == /\ ~RetriesShort /\ delta = "writing" /\ partial                        \* the regression: on to the next chunk
+            /\ partial' = FALSE /\ sent' = sent + 1 /\ lost' = lost + 1
+            /\ UNCHANGED <<pipe, wopen, ropen, read, pager, delta, epipe, log>>
 WriteFails == /\ delta = "writing" /\ sent < N /\ ~ropen             \* EPIPE: nobody will ever read
               /\ epipe' = TRUE /\ wopen' = FALSE
               /\ delta' = IF WaitsForPager THEN "waiting" ELSE "exited"
               /\ log' = IF WaitsForPager THEN log ELSE Append(log, "delta-exit")
-              /\ UNCHANGED <<pipe, sent, ropen, read, pager>>
-Finish == /\ delta = "writing" /\ sent = N
-          /\ wopen' = FALSE /\ delta' = "waiting" /\ UNCHANGED <<pipe, sent, ropen, read, pager, epipe, log>>
+              /\ UNCHANGED <<pipe, sent, ropen, read, pager, partial, lost>>
+Finish == /\ delta = "writing" /\ sent = N /\ ~partial
+          /\ wopen' = FALSE /\ delta' = "waiting" /\ UNCHANGED <<pipe, sent, ropen, read, pager, epipe, log, partial, lost>>
 PagerRead == /\ pager = "running" /\ ropen /\ pipe > 0 /\ read < Quit
-             /\ pipe' = pipe - 1 /\ read' = read + 1 /\ UNCHANGED <<sent, wopen, ropen, pager, delta, epipe, log>>
+             /\ pipe' = pipe - 1 /\ read' = read + 1 /\ UNCHANGED <<sent, wopen, ropen, pager, delta, epipe, log, partial, lost>>
 PagerStops == /\ pager = "running" /\ ropen /\ read = Quit          \* the user quits
               /\ ropen' = FALSE /\ pipe' = 0
               /\ pager' = IF Stay THEN "staying" ELSE "exited"
               /\ log' = log \o (IF Stay THEN <<"got">> ELSE <<"got", "done">>)
-              /\ UNCHANGED <<sent, wopen, read, delta, epipe>>
+              /\ UNCHANGED <<sent, wopen, read, delta, epipe, partial, lost>>
 PagerEOF == /\ pager = "running" /\ ropen /\ pipe = 0 /\ ~wopen /\ read < Quit     \* end of input
             /\ ropen' = FALSE /\ pager' = "exited" /\ log' = log \o <<"got", "done">>
-            /\ UNCHANGED <<pipe, sent, wopen, read, delta, epipe>>
+            /\ UNCHANGED <<pipe, sent, wopen, read, delta, epipe, partial, lost>>
 PagerLeaves == /\ pager = "staying" /\ pager' = "exited" /\ log' = Append(log, "done")
-               /\ UNCHANGED <<pipe, sent, wopen, ropen, read, delta, epipe>>
+               /\ UNCHANGED <<pipe, sent, wopen, ropen, read, delta, epipe, partial, lost>>
 DeltaExits == /\ delta = "waiting" /\ pager = "exited"              \* child.wait() returns
               /\ delta' = "exited" /\ log' = Append(log, "delta-exit")
-              /\ UNCHANGED <<pipe, sent, wopen, ropen, read, pager, epipe>>
-Next == Write \/ WriteFails \/ Finish \/ PagerRead \/ PagerStops \/ PagerEOF \/ PagerLeaves \/ DeltaExits
+              /\ UNCHANGED <<pipe, sent, wopen, ropen, read, pager, epipe, partial, lost>>
+Next == Write \/ ShortWrite \/ DropRest \/ WriteFails \/ Finish \/ PagerRead \/ PagerStops \/ PagerEOF \/ PagerLeaves \/ DeltaExits
 Spec == Init /\ [][Next]_vars /\ WF_vars(Next)
 
 \* ---- the properties ----
 NoEarlyExit == delta = "exited" => pager = "exited"                  \* delta does not exit before the pager does
-AllDelivered == (delta = "exited" /\ Quit > N) => read = N            \* a pager that reads everything gets everything
-NothingInvented == read <= sent /\ sent <= N
+AllDelivered == (delta = "exited" /\ Quit > N) => (read = N /\ lost = 0)  \* a pager that reads everything gets everything, whole
+NothingInvented == read <= sent /\ sent <= N /\ read + lost <= sent
 LogOrder == \A i, j \in DOMAIN log : (log[i] = "delta-exit" /\ log[j] = "done") => j < i
 Terminates == <>(delta = "exited")
 =============================================================================
